@@ -3,7 +3,7 @@
 From Coq Require Import List NArith ZArith Bool Sorted Lia.
 From Storage Require Import Base.Bytes Links.StrOrder Links.LinkModel Links.LinkModelProofs Links.SetLinksMerge
   Links.SetLinksMergeProofs Links.RefCount Links.RefCountProofs Links.LinkMachine Links.LinkMachineProofs
-  Links.HierMachine Links.HierProofs.
+  Links.HierMachine Links.HierProofs Links.HierWhere Links.HierWhereProofs.
 Import ListNotations.
 Local Open Scope Z_scope.
 
@@ -125,7 +125,7 @@ Qed.
 (* family A: root store and a plain child (level 1); family B: root store and an Extended child (level 1).
    Pair 0: A's child store - B's root store; pair 1: A's root store - B's extended child store; pair 2:
    the two root stores. *)
-Definition T1 : topo := mkTopo (fun sd => if sd then [false] else [true]) [(1, 0); (0, 1); (0, 0)]%nat.
+Definition T1 : topo := mkTopo (fun sd => if sd then [false] else [true]) [(1, 0); (0, 1); (0, 0)]%nat [].
 
 (* "a" of A is created through the plain child, "x" through the root store; "a" of B through the extended
    child, "b" through the root store; links and counts in all three pairs; then "a" of A is deleted
@@ -172,7 +172,7 @@ Proof. split; [exact hh1_in|]. split; [exact hh1_counts|]. split; [exact hh1_bou
 (* hier_delete_succeeds / hier_delete_refused_when_ext_blocked: both cases occur.  "b" of B was created
    through the ROOT store and has no data in the extended child store, which owns pair 1: its delete is
    refused, through whichever store; without pair 1 (T1') it passes. *)
-Definition T1' : topo := mkTopo (fun sd => if sd then [false] else [true]) [(1, 0); (0, 0)]%nat.
+Definition T1' : topo := mkTopo (fun sd => if sd then [false] else [true]) [(1, 0); (0, 0)]%nat [].
 Example hier_ext_blocked_example :
   let h := hstate_after 2 in
   ext_blocked T1 h B k4 = true /\ ext_blocked T1 h B k1 = false /\ ext_blocked T1' h B k4 = false /\
@@ -192,6 +192,79 @@ Example root_only_cleanup_refuted :
   match hdelete_root_only T1 U0 A ida (hstate_after 2) with
   | HDone h' => hp h' A 0%nat ida = false /\ hl h' 0%nat B k1 ida = true /\ hr h' 0%nat B k1 ida = Some 1 /\
                 get_links U0 (view T1 2 h') B k1 = [idx]
+  | _ => False
+  end.
+Proof. vm_compute. repeat split. Qed.
+
+(* ==== kinds of collection per store, DeleteWhere ================================================================== *)
+
+(* family A: root store and a plain child; family B: a root store.  Pair 0 (A's child - B's root) and
+   pair 1 (the root stores) are REF-COUNTED ONLY, pair 2 (the root stores) is PLAIN ONLY: A's child store
+   registers only a ref-counted collection (store.links is empty), A's root store one of each kind, B's
+   root store two ref-counted ones and a plain one. *)
+Definition TK : topo := mkTopo (fun sd => if sd then [false] else []) [(1, 0); (0, 0); (0, 0)]%nat
+                               [(false, true); (false, true); (true, false)].
+
+Definition hk : xhistory :=
+  [ [XOp (HCreate A 1 ida); XOp (HCreate A 0 idx); XOp (HCreate B 0 k1); XOp (HCreate B 0 k4)];
+    [XOp (HLink 0 (OIncr A ida k1)); XOp (HLink 0 (OIncr B k1 ida)); XOp (HLink 1 (OSetCount A idx k4 3));
+     XOp (HLink 1 (OIncr A ida k4)); XOp (HLink 2 (OAddLinks A idx [k1; k4])); XOp (HLink 2 (OAddLink B k1 ida))];
+    [XOp (HLink 0 (OAddLinks A ida [k1]))];        (* refused: pair 0 has no plain link collection *)
+    [XOp (HDelete A 1 ida)];                       (* through the child store, whose only collections are ref-counted *)
+    [XDeleteWhere B 0 false [k4; k2]];             (* "aa" does not exist: DeleteById("b") only *)
+    [XDeleteWhere A 1 true []] ]%nat.              (* the child store holds nothing any more: deletes nothing *)
+
+Lemma hk_in : xhist_in U0 hk.
+Proof. repeat constructor; simpl; tauto. Qed.
+Lemma hk_counts : xhist_counts_ok hk.
+Proof. repeat constructor; simpl; lia. Qed.
+Lemma hk_bound : xhist_bound 0 hk <= max_int32.
+Proof. vm_compute. discriminate. Qed.
+
+Definition kstate_after (n : nat) : hstate := run_xhist TK U0 (firstn n hk) hinit.
+
+Example kinds_example :
+  xhist_in U0 hk /\ xhist_counts_ok hk /\ xhist_bound 0 hk <= max_int32 /\
+  has_plain TK 0 = false /\ has_rc TK 0 = true /\ link_pairs TK A 1 = [] /\ rc_pairs TK A 1 = [0%nat] /\
+  (* after the links *)
+  get_link_counts (view TK 0 (kstate_after 2)) A ida k1 = (Some 2, Some 2) /\
+  get_link_counts (view TK 1 (kstate_after 2)) B k4 idx = (Some 3, Some 3) /\
+  get_link_counts (view TK 1 (kstate_after 2)) B k4 ida = (Some 1, Some 1) /\
+  get_links U0 (view TK 2 (kstate_after 2)) B k1 = [ida; idx] /\
+  (* the plain operation on the ref-counted-only pair is refused *)
+  fst (run_xtx TK U0 (nth 2 hk []) (kstate_after 2)) = false /\
+  (* "a" of A deleted through the child store: the counts B holds for it are gone in both ref-counted
+     pairs, the plain link of the root pair as well *)
+  hp (kstate_after 4) A 0%nat ida = false /\
+  get_link_counts (view TK 0 (kstate_after 4)) B k1 ida = (None, None) /\
+  hr (kstate_after 4) 0%nat B k1 ida = None /\ hr (kstate_after 4) 1%nat B k4 ida = None /\
+  get_links U0 (view TK 2 (kstate_after 4)) B k1 = [idx] /\
+  (* DeleteWhere(id in ["b", "aa"]) through B's root store *)
+  where_ids TK U0 (kstate_after 4) B 0 false [k4; k2] = [k4] /\
+  hp (kstate_after 5) B 0%nat k4 = false /\ hp (kstate_after 5) B 0%nat k1 = true /\
+  get_link_counts (view TK 1 (kstate_after 5)) A idx k4 = (None, None) /\
+  get_links U0 (view TK 2 (kstate_after 5)) A idx = [k1] /\
+  (* DeleteWhere(true) through A's child store deletes only what that store holds *)
+  where_ids TK U0 (kstate_after 5) A 1 true [] = [] /\ hp (kstate_after 6) A 0%nat idx = true /\
+  where_ids TK U0 (kstate_after 5) A 0 true [] = [idx].
+Proof. split; [exact hk_in|]. split; [exact hk_counts|]. split; [exact hk_bound|]. vm_compute. repeat split. Qed.
+
+(* The second loop of cleanupLinks must not depend on the first: a clean-up that returns early for a
+   store without plain link collections ("nothing to cascade") skips EntityDeleted of the store's
+   ref-counted collections, and the peer keeps a positive count for an entity that no longer exists. *)
+Definition cleanup_links_plain_guard (T : topo) (U : univ) (sd : side) (k : nat) (x : id) (h : hstate) : hres :=
+  match link_pairs T sd k with [] => HDone h | _ => cleanup_links T U sd k x h end.
+Definition hdelete_plain_guard (T : topo) (U : univ) (sd : side) (x : id) (h : hstate) : hres :=
+  if negb (hp h sd 0%nat x) then HFailed
+  else hbind (hfold (fun k h => if child_found T h sd k x then cleanup_links_plain_guard T U sd k x h else HDone h)
+                    (seq 1 (nkids T sd)) h) (fun h1 =>
+       hbind (cleanup_links_plain_guard T U sd 0 x h1) (fun h2 => HDone (hdrop sd x h2))).
+
+Example rc_only_store_cleanup_refuted :
+  match hdelete_plain_guard TK U0 A ida (kstate_after 2) with
+  | HDone h' => hp h' A 0%nat ida = false /\ hr h' 0%nat B k1 ida = Some 2 /\
+                (* the root store of A has a plain collection, so its own pairs are clean *)
+                hr h' 1%nat B k4 ida = None /\ get_links U0 (view TK 2 h') B k1 = [idx]
   | _ => False
   end.
 Proof. vm_compute. repeat split. Qed.
